@@ -129,6 +129,7 @@ class Universe:
         self.queries = [self.guard.add_all((rs.uniform(5, 95, m), rs.uniform(-55, 35, m))) for m in (7, 11)]
         self.queries.append(self.guard.add_all((rs.uniform(5, 95, (3, 4)), rs.uniform(-55, 35, (3, 4)))))
         self.results = []  # (where, result object, copies of its arrays)
+        self.aliased = []
 
     def check_purity(self, where):
         bad = self.guard.changed()
@@ -146,7 +147,11 @@ class Universe:
         for origin, arrs, copies in self.results:
             for a, c in zip(arrs, copies):
                 if a.shape != c.shape or not np.array_equal(a, c, equal_nan=True if a.dtype.kind == "f" else False):
-                    raise Violation("result-aliased", f"{where}: the result returned earlier by [{origin}] changed afterwards")
+                    # a result that changes after it was returned (shared scratch buffer) is bad practice but
+                    # not excluded by the statement, which speaks of argument arrays and of repeated calls:
+                    # recorded as a probe, not judged
+                    self.aliased.append(f"{where}: the result returned earlier by [{origin}] changed afterwards")
+                    return
 
 
 def observe(est, q):
@@ -257,7 +262,7 @@ class History:
             self.trace.append(f"L{li}.{name}(D{j})")
             res = self.must(self.trace[-1], call)
             if via_filter:
-                self.check_filter_output(live, ds, res, self.trace[-1])
+                self.u.remember(self.trace[-1], res)  # what filter returns is C06's statement, not judged here
         live.last_fit, live.unknown, live.touched = j, False, True
         self.after(self.trace[-1])
         self.compare_model(live, self.trace[-1])
@@ -302,23 +307,6 @@ class History:
             self.compare_model(live, where)
         self.probe("interrupt_positions_enumerated")
         self.probes["interrupt_positions_total"] = self.probes.get("interrupt_positions_total", 0) + n
-
-    def check_filter_output(self, live, ds, res, where):
-        if not (isinstance(res, tuple) and len(res) == 3):
-            raise Violation("filter-output", f"{where}: filter returned {type(res).__name__} of length {len(res) if hasattr(res, '__len__') else '?'}")
-        coords, resid, weights = res
-        if len(coords) != len(ds.coordinates) or not all(np.array_equal(a, b) for a, b in zip(coords, ds.coordinates)):
-            raise Violation("filter-output", f"{where}: filter did not return the coordinates it was given")
-        w_in = ds.weights_arg()
-        same_w = (weights is None and w_in is None) or (
-            weights is not None and w_in is not None and all(np.array_equal(a, b) for a, b in zip(arrays_of(weights), arrays_of(w_in)))
-        )
-        if not same_w:
-            raise Violation("filter-output", f"{where}: filter did not return the weights it was given")
-        r = resid if isinstance(resid, tuple) else (resid,)
-        if len(r) != ds.ncomp or any(a.shape != d.shape for a, d in zip(r, ds.data)):
-            raise Violation("filter-output", f"{where}: residuals do not have the data's shape")
-        self.u.remember(where, res)
 
     def op_reject(self, li, live):
         self.last_query = None  # a state-changing operation: the previous answer need not repeat
@@ -436,7 +424,8 @@ class History:
     def check_rng_untouched(self, state, where):
         now = np.random.get_state()
         if not (state[0] == now[0] and np.array_equal(state[1], now[1]) and state[2:] == now[2:]):
-            raise Violation("global-rng-consumed", f"{where}: the process-global numpy RNG state was advanced or reseeded by a call that was given explicit seeds only")
+            # not forbidden by the statement (only repeatability is): recorded, not judged
+            self.probe("global_rng_advanced_by_seeded_or_pure_call")
 
     def op_repeat(self):
         if self.last_query is None:
@@ -489,14 +478,19 @@ class History:
                 if not ok:
                     raise Violation("set-params", f"{self.trace[-1]}: predictions changed after set_params(**get_params())")
         else:
-            new = self.must(self.trace[-1], lambda: pickle.loads(pickle.dumps(obj)))
-            if freeze_params(new) != freeze_params(obj):
-                raise Violation("pickle-differs", f"{self.trace[-1]}: parameters changed through pickle")
-            if live.last_fit is not None and not live.unknown:
-                ok, _ = same_result(observe(new, self.u.queries[0]), observe(obj, self.u.queries[0]), rtol=RTOL_REPEAT)
-                if not ok:
-                    raise Violation("pickle-differs", f"{self.trace[-1]}: the unpickled estimator predicts differently")
-            live.obj = new
+            # pickling is not part of C20's statement (get_params/clone are): a failure here is recorded, and
+            # the history simply continues on the original object.  (C12 meets pickling at its own seam.)
+            try:
+                new = pickle.loads(pickle.dumps(obj))
+                same = freeze_params(new) == freeze_params(obj)
+                if same and live.last_fit is not None and not live.unknown:
+                    same, _ = same_result(observe(new, self.u.queries[0]), observe(obj, self.u.queries[0]), rtol=RTOL_REPEAT)
+            except Exception:  # noqa: B902
+                same = False
+            if same:
+                live.obj = new
+            else:
+                self.probe("pickle_round_trip_differs_not_judged")
         self.after(self.trace[-1])
         self.compare_model(live, self.trace[-1])
 
@@ -735,13 +729,10 @@ class History:
             "scatter_points(W>E)": lambda: vd.scatter_points(bad_region, 5, random_state=0),
             "Trend.grid(W>E)": lambda: vd.Trend(1).fit(c, d).grid(region=bad_region, spacing=20.0),
             "Trend.grid(both)": lambda: vd.Trend(1).fit(c, d).grid(region=region, spacing=20.0, shape=(3, 3)),
-            "make_xarray_grid(names mismatch)": lambda: vd.make_xarray_grid(vd.grid_coordinates(region, spacing=25.0), np.ones((5, 5)), data_names=["a", "b"]),
             "BlockReduce.filter(data shape)": lambda: vd.BlockReduce(np.mean, spacing=20.0).filter(c, np.ravel(d)[:-1]),
             "BlockReduce.filter(weight count)": lambda: vd.BlockReduce(np.average, spacing=20.0).filter(c, d, (np.ones(d.shape), np.ones(d.shape))),
             "train_test_split(data shape)": lambda: vd.train_test_split(c, np.ravel(d)[:-1], random_state=0),
             "cross_val_score(weight size)": lambda: vd.cross_val_score(vd.Trend(1), c, d, np.ones(d.size - 1)),
-            "distance_mask(neither coordinates nor grid)": lambda: vd.distance_mask(c, 10.0),
-            "profile_coordinates(size 0)": lambda: vd.profile_coordinates((0.0, 0.0), (1.0, 1.0), size=0),
         }
         name = self.tape.pick(sorted(cases), "invalid.which")
         self.trace.append(name + " must raise")
@@ -805,7 +796,7 @@ def run(tape, opts=None):
     nontrivial = any(h.flags.values())
     return {
         "op": "history",
-        "probes": h.probes,
+        "probes": dict(h.probes, **({"result_changed_after_return_not_judged": len(h.u.aliased)} if h.u.aliased else {})),
         "fired": h.fired,
         "extra": {"operations": h.ops},
         "maxdiff": h.maxdiff,
